@@ -147,22 +147,34 @@ Fixpoint split_last {A} (l : list A) : option (list A * A) :=
   | x :: l => match split_last l with Some (f, y) => Some (x :: f, y) | None => None end
   end.
 
-Definition cls_spec_step (prev : ctable) (d : cdef) (ob : ctable) : bool :=
-  match split_last ob with
+(* inh = what attribute lookup gives the new class before the decorator
+   assigns: the mapping last observed on the first class of its MRO (after
+   itself) to which a decorator assigned one *)
+Definition cls_spec_step (info : list (cls * cinfo)) (prev : ctable) (d : cdef) (ob : cobs) : bool :=
+  match split_last (co_tab ob) with
   | None => false
-  | Some (front, (c, m)) =>
-      let inh := match cd_base d with
-                 | Some b => match alookup b prev with Some x => x | None => [] end
-                 | None => [] end in
+  | Some (front, (c, om)) =>
+      let inh := inherited info prev (co_mro ob) in
+      (* every other class reads as before *)
       ctable_eqb prev front && (c =? cd_cls d) &&
-      forallb (fun e => optz_eqb (alookup e m) (expect_lookup inh (cd_names d) (cd_maps d) e))
-              (map fst m ++ map fst inh ++ cd_names d ++ map fst (cd_maps d))
+      (if empty_deco d then
+         (* event_handler(): cls unchanged, it reads what it inherits (possibly nothing) *)
+         omapping_eqb inh om
+       else
+         match om with
+         | Some m =>
+             forallb (fun e => optz_eqb (alookup e m) (expect_lookup (or_empty inh) (cd_names d) (cd_maps d) e))
+                     (map fst m ++ map fst (or_empty inh) ++ cd_names d ++ map fst (cd_maps d))
+         | None => false
+         end)
   end.
 
-Fixpoint cls_spec (prev : ctable) (ds : list (cdef * ctable)) : bool :=
+Fixpoint cls_spec (info : list (cls * cinfo)) (prev : ctable) (ds : list (cdef * cobs)) : bool :=
   match ds with
   | [] => true
-  | (d, ob) :: ds => cls_spec_step prev d ob && cls_spec ob ds
+  | (d, ob) :: ds =>
+      cls_spec_step info prev d ob &&
+      cls_spec (info ++ [(cd_cls d, {| ci_mro := co_mro ob; ci_own := negb (empty_deco d) |})]) (co_tab ob) ds
   end.
 
 (* ------------------------------------------------------------------ *)
@@ -328,7 +340,7 @@ Fixpoint nodupb (l : list Z) : bool :=
 (* __events__ is a dict, the keyword arguments of the decorator are one *)
 Definition wf_classes (c : ecase) : bool :=
   forallb (fun dob => nodupb (map fst (cd_maps (fst dob))) &&
-                      forallb (fun cm => nodupb (map fst (snd cm))) (snd dob)) (c_classes c).
+                      forallb (fun cm => nodupb (map fst (or_empty (snd cm)))) (co_tab (snd dob))) (c_classes c).
 
 Definition entry_enabled_only (e : entry) : bool :=
   match e with EAct (ASetEnabled _) | EAct (ADrop _) => false | _ => true end.
@@ -341,7 +353,7 @@ Definition wf3_b (c : ecase) : bool := wf_classes c && forallb entry_enabled_onl
 (* K4: two distinct handlers that are == and hash-equal *)
 Definition known3_b (c : ecase) : bool := negb (isnil (c_eqs c)).
 Definition holds3_case_b (c : ecase) : bool :=
-  cls_spec [] (c_classes c) && holds3_b (params_of c) (c_log c).
+  cls_spec [] [] (c_classes c) && holds3_b (params_of c) (c_log c).
 Definition C03_verdict (c : C03_case) : nat :=
   (bit (wf3_b c) 1 + bit (known3_b c) 2 + bit (accepts c) 4 + bit (holds3_case_b c) 8)%nat.
 
